@@ -139,6 +139,7 @@ func init() {
 		for k := range s {
 			s[k] = uint8(0)
 		}
+		fr.i.mon.ownSlice(s)
 		return s
 	}
 }
